@@ -31,6 +31,18 @@ CHECKS = {
                  "so the specification's part is the input space, the munch table and the static-error classes; 20 s deadline per input."),
         "technique": "TLC-enumerated token-level input space + mutation/byte-class/limit families replayed into every front-end entry point in child processes",
     },
+    "C17": {
+        "text": ("FormatDirective.tla is the directive grammar of format()/sprintf and a transcription of the reference's argument bookkeeping "
+                 "(explicit indexes, '*' width/precision, MISSING/BADINDEX/NOVERB/BADWIDTH/BADPREC/EXTRA). TLC enumerates every directive of the "
+                 "grammar with 0..3 arguments (and two-directive formats) and computes the consumption trace; each case is rendered to concrete "
+                 "formats and seeded argument vectors of the five mapped types; tengo.Format, builtin format and fmt.sprintf must equal "
+                 "fmt.Sprintf on the corresponding Go values (spec trace checked against the reference's markers; the property's three exclusions "
+                 "decided per directive). Arbitrary formats x objects: string or ErrStringLimit, never a panic."),
+        "design_ref": "DESIGN.md 8/C17, 15",
+        "note": ("Trusted: Go's fmt as the executable reference (the property names it); TLC for the enumeration; the renaming of Go type names in "
+                 "bad-verb markers. The value space is a boundary table, not all int64/float64."),
+        "technique": "TLC-enumerated directive grammar with consumption traces, replayed into Format/format/sprintf and compared with fmt.Sprintf",
+    },
     "C01": {
         "text": ("TengoSem.tla/TengoValues.tla are an executable TLA+ reference semantics of the documented language (names, lexical "
                  "environments, cells, heap with slice aliasing, operator/builtin tables). TLC evaluates every generated program, exploring "
